@@ -1178,6 +1178,9 @@ def di_validity(m):
             return INVALID, f + ":type"
         if v != v.strip() or "\n" in v or "\r" in v:
             return UNSPEC, f + ":not-single-line"
+        if any(ch in v for ch in "\x0b\x0c\x1c\x1d\x1e\x85\u2028\u2029"):
+            # one line for a text file, several for str.splitlines(): a writer may refuse it - if it writes it, it reads it back
+            return UNSPEC, f + ":separator-lookalike"
     if m["description"][0] in "\"'" or m["description"][-1] in "\"'":
         return UNSPEC, "description:quoted"
     dn = m.get("disc_numbers")
@@ -1203,6 +1206,9 @@ class DIMachine(FormatMachine):
     def new_obj(self):
         import productmd.discinfo
         return productmd.discinfo.DiscInfo()
+
+    def keeps_roundtrip_oracle(self, why):
+        return why.endswith(":separator-lookalike")
 
     def observe(self, obj):
         return dict((f, copy.deepcopy(getattr(obj, f))) for f in DI_FIELDS)
